@@ -6,7 +6,7 @@ layout and on the captured corpus.
 """
 import random
 
-from .. import cases, gen, layout, oracles, probes
+from .. import cases, gen, history, layout, oracles, probes
 
 PROPERTY = "C01"
 LEVEL = "exploration"
@@ -14,7 +14,7 @@ RULE = (
     "generated encodings of every non-union structure type (random values from the pinned allowed sets, every selector "
     "value of every selector-carrying structure, forced list lengths / buffer sizes, empty structured TPM2Bs), of every "
     "command code x {command, response} x 12 session/encryption/failure configurations, and the captured corpus; one "
-    "evaluation = one strict decode compared with the reference; distinct = distinct (type or code/direction/"
+    "evaluation = one strict decode compared with the reference; between the judged decodes hostile scenes run in the same process (strict decodes that abort inside sized regions, warn-mode decodes of malformed input, generators abandoned part-way - closed, left alive, resumed later); distinct = distinct (type or code/direction/"
     "configuration, union arms taken, event count) signatures with at least one primitive field"
 )
 ASSUMPTIONS = [
@@ -60,26 +60,43 @@ def check_case(case, rec):
         if len(e.path) >= 2 and len(e.path[-1][0]) >= 1 and e.value is None:
             pass
     for rule, mech, msg in findings:
-        rec.violation(rule, mech, f"{case.short()}\n{msg}", case.replay())
+        rep = case.replay()
+        if history.COUNT:
+            rep["history"] = history.COUNT
+            msg += f"\n(decoded after {history.COUNT} hostile scenes - aborted, abandoned and still-open decodes - in the same process; the replay runs them first)"
+        rec.violation(rule, mech, f"{case.short()}\n{msg}", rep)
     rec.sample(dict(case=case.short(), events=len(ref.events)))
 
 
 def run_shard(shard, rec):
     rng = random.Random(f"{shard.get('seed', 0)}:C01:{shard['name']}")
+    hrng = random.Random(f"{shard.get('seed', 0)}:C01:history:{shard['name']}")
     big = shard.get("tier") == "thorough"
+    n = 0
+
+    def hostile():
+        # a well-formed encoding must decode the same whatever was decoded - or given up - before it in this process
+        nonlocal n
+        n += 1
+        if n % 5 == 2:
+            history.disturb(hrng, rec, n=2)
+
     with probes.Anchors(ANCHORS, rec):
         if shard["kind"] == "struct":
             for case in cases.struct_cases(shard["types"], rng, shard["per_type"], big=big):
+                hostile()
                 check_case(case, rec)
                 if case.origin == "gen-arm":
                     rec.add("arms", list(case.sig[1:4]))
         elif shard["kind"] == "msg":
             for c, r in cases.msg_cases(shard["ccs"], rng, shard["per_cfg"], big=big):
+                hostile()
                 check_case(c, rec)
                 check_case(r, rec)
                 rec.add("configs", [c.sig[2]])
         else:
             for c, r in cases.corpus_cases(shard["start"], shard["step"]):
+                hostile()
                 check_case(c, rec)
                 check_case(r, rec)
 
@@ -101,9 +118,24 @@ def finish(m, tier):
     for k in ("codes_Command", "codes_Response"):
         if len(m["sets"].get(k, ())) < len(P["command_codes"]):
             inc.append(f"{k}: only {len(m['sets'].get(k, ()))} codes covered")
+    if not m["counters"].get("hostile_history_scenes"):
+        inc.append("no hostile history scene was run")
     inc += probes.missing(m, ANCHORS)
     return dict(inconclusive=inc, coverage=cov)
 
 
 def replay(r, rec):
+    if r.get("history"):
+        for _ in range(12):
+            history.disturb(None, rec, n=4)
+        # what an aborted decode leaves behind may take several further decodes to show (a stale region is charged
+        # until it overflows): decode the case repeatedly, with aborted decodes in between
+        case = cases.Case.from_replay(r)
+        for i in range(60):
+            if i % 6 == 0:
+                history.aborted_scenes(rec)
+            check_case(case, rec)
+            if rec.viol_total:
+                return
+        return
     check_case(cases.Case.from_replay(r), rec)
